@@ -68,20 +68,47 @@ structure AtomicOp where
   failOrd : Ord                -- failure ordering (cas only; `other` otherwise)
   deriving DecidableEq, Repr, Inhabited
 
-/-- A marker bound: which of the type's own parameters must implement the trait. -/
-structure MarkerImpl where
-  ty : String                  -- e.g. "Rodeo"
-  trait_ : String              -- "Send" | "Sync"
-  params : List String         -- generic parameters of the impl, in order
-  bounds : List (String × String)  -- (param, bound trait)
+/-- Auto traits. -/
+inductive Marker where
+  | send | sync
   deriving DecidableEq, Repr, Inhabited
 
-/-- A struct and the types of its fields (as normalised token strings). -/
-structure StructDef where
-  name : String
-  params : List String
-  fields : List (String × String)
+/-- Generic parameters of the containers. -/
+inductive TParam where
+  | K | S
+  | other (s : String)
   deriving DecidableEq, Repr, Inhabited
+
+/-- Type constructors that occur in the containers' fields. -/
+inductive TCon where
+  | rodeo | threadedRodeo | reader | resolver
+  | arena | lockfreeArena | anyArena | bucket | atomicBucket | atomicBucketList
+  | hashMap | dashMap | vec | phantomData | nonNull | atomicUsize | atomicPtr | nonZero | int | str | unit
+  | other (s : String)
+  deriving DecidableEq, Repr, Inhabited
+
+/-- Types, as far as auto traits care. -/
+inductive TyE where
+  | param (p : TParam)
+  | app (c : TCon) (args : List TyE)
+  | ref (t : TyE)
+  | array (t : TyE)
+  deriving Repr, Inhabited
+
+/-- `unsafe impl<..> Send/Sync for T<..>` with the marker bounds it puts on `T`'s own parameters. -/
+structure MarkerImpl where
+  ty : TCon
+  trait_ : Marker
+  params : List TParam               -- the type's arguments in the impl header, in order
+  bounds : List (TParam × Marker)    -- `K: Send` etc. (other bounds are irrelevant to auto traits)
+  deriving Repr, Inhabited
+
+/-- A struct or enum and the types of all its fields (all variants). -/
+structure StructDef where
+  name : TCon
+  params : List TParam
+  fields : List TyE
+  deriving Repr, Inhabited
 
 /-- Receiver of a method. -/
 inductive Recv where
@@ -96,14 +123,36 @@ inductive LtClass where
   | noStr        -- returns no string
   deriving DecidableEq, Repr, Inhabited
 
+/-- Entry points the lifetime property talks about. -/
+inductive SigName where
+  | resolve | tryResolve | resolveUnchecked | index | iter | strings | intoIter
+  | clear | intoReader | intoResolver | tryCloneFrom | cloneFrom
+  | getOrIntern | tryGetOrIntern | getOrInternStatic | tryGetOrInternStatic
+  | other (s : String)
+  deriving DecidableEq, Repr, Inhabited
+
+/-- Who owns a method: one of the four containers, a trait of the interface layer, an iterator type. -/
+inductive Owner where
+  | rodeo | threaded | reader | resolver
+  | traitResolver | traitReader | traitInterner
+  | iterType (threaded : Bool) (strings : Bool)      -- `Iter`/`Strings` of util.rs resp. threaded_rodeo.rs
+  | other (s : String)
+  deriving DecidableEq, Repr, Inhabited
+
 structure FnSig where
-  owner : String               -- type or trait the method belongs to
-  viaTrait : String            -- "" for inherent methods, else trait name
-  name : String
+  owner : Owner
+  name : SigName
   recv : Recv
   strArgStatic : Option Bool   -- first `str` parameter: `some true` = `&'static str`, `some false` = borrowed
-  ret : LtClass
+  ret : LtClass                -- where the lifetime of the returned string / iterator comes from
   isUnsafe : Bool
+  deriving DecidableEq, Repr, Inhabited
+
+/-- `type Item` of an iterator: where the lifetime of the yielded string comes from
+(`self_` = the iterator's own lifetime parameter, i.e. the borrow of the container). -/
+structure IterItem where
+  owner : Owner
+  item : LtClass
   deriving DecidableEq, Repr, Inhabited
 
 /-- The self type of an impl in `interface/*.rs` (and the four containers). Enumerations rather
